@@ -29,6 +29,7 @@ TableEqualsSoS ==
 Rotation == Full => RobustSign(A, B, C) = RobustSign(B, C, A)
 AntiSym == Full => RobustSign(A, B, C) = -RobustSign(C, B, A)
 ZeroIffEqual == Full => ((RobustSign(A, B, C) = 0) <=> (A = B \/ B = C \/ A = C))
+SemanticEqualsOracle == Full => RobustSign(A, B, C) = RobustSignSemantic(A, B, C)
 DetSign == Full /\ Det(A, B, C) # 0 => RobustSign(A, B, C) = Sgn(Det(A, B, C))
 
 Hash == (A[1] * 7 + A[2] * 3 + A[3] + B[1] * 5 + B[2] * 11 + B[3] * 13 + C[1] * 17 + C[2] * 19 + C[3] * 23) % 7
